@@ -5,8 +5,8 @@
 From Coq Require Import ZArith List String Bool Sorting.Permutation.
 Import ListNotations.
 From TD Require Import Model.Keys Proofs.KeysP Model.C04_Tree Model.C04_Ops Model.C04_Views Model.C04_Step
-     Spec.C04_NestedDict Proofs.C04_AssocP Proofs.C04_CoreP Proofs.C04_RenameP Proofs.C04_ViewsP Proofs.C04_HistP
-     Proofs.C04_RefuteP.
+     Spec.C04_NestedDict Proofs.C04_AssocP Proofs.C04_CoreP Proofs.C04_RenameP Proofs.C04_UpdateP Proofs.C04_ViewsP Proofs.C04_FlattenP
+     Proofs.C04_HistP Proofs.C04_SpellP Proofs.C04_RefuteP.
 Open Scope string_scope.
 Open Scope list_scope.
 
@@ -17,6 +17,31 @@ Theorem C04_unravel_spelling : forall k1 k2,
   cpp_unravel_to_tuple k1 = cpp_unravel_to_tuple k2 /\ cpp_unravel_key k1 = cpp_unravel_key k2.
 Proof. exact unravel_spelling. Qed.
 Print Assumptions C04_unravel_spelling.
+
+(* ... and therefore for every entry point of the mapping API (str vs 1-tuple vs arbitrarily nested tuples) *)
+Theorem C04_spelling_entry_points : forall k1 k2, wfb k1 = true -> wfb k2 = true -> strings k1 = strings k2 ->
+  forall v hd inc es,
+    set_ k1 v es = set_ k2 v es /\ del_ k1 es = del_ k2 es /\ get k1 es = get k2 es
+    /\ pop k1 hd es = pop k2 hd es /\ view_contains inc k1 es = view_contains inc k2 es
+    /\ setdefault k1 v es = setdefault k2 v es
+    /\ step es (OSet k1 v) = step es (OSetItem k2 v) /\ step es (ODel k1) = step es (ODelItem k2).
+Proof. exact spelling_entry_points. Qed.
+Print Assumptions C04_spelling_entry_points.
+
+Theorem C04_spelling_rename : forall k1 k2 k1' k2' safe es,
+  wfb k1 = true -> wfb k2 = true -> strings k1 = strings k2 ->
+  wfb k1' = true -> wfb k2' = true -> strings k1' = strings k2' ->
+  rename k1 k1' safe es = rename k2 k2' safe es.
+Proof. exact spelling_rename. Qed.
+Print Assumptions C04_spelling_rename.
+
+Theorem C04_spelling_select_exclude : forall ks1 ks2 strict inplace es,
+  Forall2 (fun a b => wfb a = true /\ wfb b = true /\ strings a = strings b) ks1 ks2 ->
+  select ks1 strict inplace es = select ks2 strict inplace es /\ exclude ks1 inplace es = exclude ks2 inplace es.
+Proof. exact spelling_select_exclude. Qed.
+Print Assumptions C04_spelling_select_exclude.
+
+(* `in` on the tensordict itself is NOT spelling-independent: see C04_contains_spelling_refuted (D43) *)
 
 (* ------------------------------------------------------------------------------------------------------------
    2. refinement, one step: for every state and every operation in scope, the model's step (transcribed from the
@@ -49,6 +74,24 @@ Theorem C04_rename_refines : forall p q safe es, p <> [] -> q <> [] -> ~ strict_
   end.
 Proof. intros p q safe es Np Nq. rewrite rename_r_path by assumption. now apply rename_p_refines. Qed.
 Print Assumptions C04_rename_refines.
+
+(* update on canonical keys: the code's merge loop = the nested dict's recursive merge, item after item *)
+Theorem C04_update_refines : forall items es,
+  match update_paths items es with
+  | (es', None) => nd_update (map (fun pv => (fst pv, abs (snd pv))) items) (absE es) = Some (absE es')
+  | (_, Some _) => nd_update (map (fun pv => (fst pv, abs (snd pv))) items) (absE es) = None
+  end.
+Proof. exact update_refines. Qed.
+Print Assumptions C04_update_refines.
+
+(* flatten_keys out of place: one entry per leaf (tensor or non-tensor), colliding names raise, empty nodes vanish *)
+Theorem C04_flatten_out_refines : forall sep es,
+  match flatten_out sep es with
+  | Ok out => nd_flatten sep (absE es) = Some (absE out)
+  | Raise _ => nd_flatten sep (absE es) = None
+  end.
+Proof. exact flatten_out_refines. Qed.
+Print Assumptions C04_flatten_out_refines.
 
 (* ------------------------------------------------------------------------------------------------------------
    4. views, for every include_nested x leaves_only x sort x is_leaf combination *)
@@ -137,7 +180,7 @@ Definition C04_refine_step_full_statement : Prop := forall es o so,
 
 (* stated, not proved (the correspondence run checks it on every generated case): the remaining operation kinds refine
    the nested dict on the domain on which a plain dict replay is determined — prefix-free key lists, strict select,
-   out-of-place flatten_keys, a non-empty separator *)
+   a non-empty separator *)
 Fixpoint prefix_free (ps : list (list string)) : Prop :=
   match ps with
   | [] => True
@@ -149,7 +192,6 @@ Definition in_scope_remaining (o : op) : Prop :=
   | OSelect ks _ strict _ => strict = true /\ prefix_free (map strings ks)
   | OExclude ks _ _ => prefix_free (map strings ks)
   | OSplit sets _ _ _ _ => prefix_free (map strings (List.concat sets))
-  | OFlatten _ inplace _ => inplace = false
   | OUnflatten sep _ _ => sep <> ""
   | _ => False
   end.
@@ -192,14 +234,15 @@ Definition ex_ops : list op :=
   [OSet (KT [KS "n"; KT [KS "b"; KS "c"]]) (Leaf LT 9);            (* through a leaf: raises, state unchanged *)
    ORename (KT [KS "n"; KS "b"]) (KT [KT [KS "n"]]) false;          (* new key is a prefix of the old one *)
    OUpdate [(KT [KS "u"; KS "v"], Node [("w", Leaf LS 4)]); (KS "u", Node [("v", Node [("x", Leaf LT 5)])])];
-   OPop (KS "zz") (Some 5%Z); OSetDefault (KT [KS "q"; KS "r"]) (Node []); ODel (KS "a"); OFilterEmpty].
+   OPop (KS "zz") (Some 5%Z); OSetDefault (KT [KS "q"; KS "r"]) (Node []); ODel (KS "a"); OFilterEmpty;
+   OFlatten "." false true].
 
 Example C04_ex_history :
   exists sops,
     Forall2 (fun o so => abs_op o = Some so /\ in_scope o /\ values_wf o) ex_ops sops
     /\ nd_ok (absE ex_tree) ex_ops sops
     /\ run ex_tree ex_ops =
-       [("n", Leaf LT 2%Z); ("s", Leaf LS 3%Z); ("u", Node [("v", Node [("w", Leaf LS 4%Z); ("x", Leaf LT 5%Z)])])].
+       [("n", Leaf LT 2%Z); ("s", Leaf LS 3%Z); ("u.v.w", Leaf LS 4%Z); ("u.v.x", Leaf LT 5%Z)].
 Proof.
   eexists. split; [|split].
   - unfold ex_ops. repeat (apply Forall2_cons; [split; [reflexivity|split]|]); try apply Forall2_nil; cbn;
